@@ -1,7 +1,7 @@
 (* Thm/C07.v — property C07: second order and time-reversible.  Models: Model/Hop.v (Verlet),
    Model/Propagate.v (Wmid, exp_step); proofs: Proof/HopP.v, Proof/ReverseP.v. *)
 From Coq Require Import Reals List Lra.
-From MV Require Import Ops RInst Vec Cplx Mat CRing MatP Hop HopP Propagate PropagateP ReverseP Traj TrajP.
+From MV Require Import Ops RInst Vec Cplx Mat CRing MatP Hop HopP Propagate PropagateP ReverseP Traj TrajP MD MDP.
 Import ListNotations.
 Open Scope R_scope.
 
@@ -77,3 +77,15 @@ Print Assumptions C07_full_run_reversible.
    forward-backward defect on real runs. *)
 Example C07_witness : map Ropp [1; -2] = [-1; - -2].
 Proof. reflexivity. Qed.
+
+(* the assembled loop of AdiabaticMD.simulate (Model/MD.v), any force that is a function of the position, any number N of
+   passes: reversing the momenta after N passes and running N more returns to the start with reversed momenta, exactly;
+   the clock has advanced by 2 N dt *)
+Theorem C07_md_run_reversible :
+  forall F m dt N x v t,
+  length x = length m -> length v = length m -> (forall y, length (F y) = length m) -> Forall (fun mi => mi <> 0) m ->
+  let s1 := md_run ROps F m dt N (x, v, t) in
+  let s2 := md_run ROps F m dt N (fst (xv s1), map Ropp (snd (xv s1)), tm s1) in
+  xv s2 = (x, map Ropp v) /\ tm s2 = t + 2 * INR N * dt.
+Proof. exact md_run_reversible. Qed.
+Print Assumptions C07_md_run_reversible.
